@@ -27,6 +27,8 @@ class FnItem:
         self.outer = outer      # enclosing FnItem for inner fns
         self.line = line
         self.ast = None
+        self.vis = 'private'
+        self.deprecated = False
         self.assoc = {}         # associated types of the enclosing impl
 
     def qual(self):
@@ -160,9 +162,13 @@ class Parser:
             self.i += 1
 
     def skip_vis(self):
+        self.last_vis = 'private'
         if self.eat_kw('pub'):
+            self.last_vis = 'pub'
             if self.at('('):
+                st = self.i
                 self.skip_balanced()
+                self.last_vis = 'pub' + ''.join(str(t.val) for t in self.toks[st:self.i])
 
     # -- item scanning --------------------------------------------------------------------------
     def scan_items(self, owner=None, trait=None, outer=None, until_brace=False):
@@ -180,6 +186,7 @@ class Parser:
             attrs = self.skip_attrs()
             is_test = any('cfg ( test )' in a or a.strip() == '[ test ]' for a in attrs)
             self.skip_vis()
+            item_vis = self.last_vis
             t = self.peek()
             if t.kind != 'id':
                 self.err('expected an item')
@@ -212,6 +219,8 @@ class Parser:
                 if not is_test:
                     fns.append(FnItem(self.file, name, self.toks, start, self.i, owner, trait, outer, line))
                     fns[-1].assoc = assoc
+                    fns[-1].vis = 'pub (trait method)' if trait else item_vis
+                    fns[-1].deprecated = any('deprecated' in a for a in attrs)
             elif w == 'struct':
                 line = self.peek().line
                 self.i += 1
@@ -1074,7 +1083,7 @@ class Parser:
             self.expect(close)
             return N('Macro', line, name=name, args=[scrut], repeat=None, pat=pat)
         if name in ('panic', 'assert', 'assert_eq', 'assert_ne', 'debug_assert', 'debug_assert_eq', 'unreachable', 'vec', 'format',
-                    'todo', 'unimplemented', 'write', 'writeln'):
+                    'todo', 'unimplemented', 'write', 'writeln', 'format_args'):
             self.i += 1
             args = []
             repeat = None
